@@ -1,8 +1,18 @@
-"""Runs the REAL LegCharge/LegPipe code on generated cases (child process; kernel configuration from the env).
+"""Runs the REAL LegCharge/LegPipe/Array code on generated cases (child process; kernel configuration from the env).
 
 usage: python -m harness.c06_worker <cases.json> <out.json>
-For each case: {"in": inputs as actually constructed (flags included), "out": observed results,
-                "oracle": [list of property violations found by the model-free oracle]}
+For each case: {"in":   inputs as actually constructed (flags included) = the input of the Lean model (absent for
+                        kinds without a Lean model),
+                "out":  observed results that the Lean model must reproduce exactly,
+                "obs":  further observations (compared between the two kernel configurations only),
+                "oracle": [[signature, detail, tainted out-key or None], ...] violations found by the model-free oracle}
+
+kinds: leg   one leg: sort/bunch/project/extend/conj/flip/get_qindex
+       pipe  LegPipe of 1-4 legs (incoming legs may be pipes themselves): structure, index map, conversions,
+             charge mapping, combine/split placement on a random tensor
+       conv  constructors and conversions of LegCharge / ChargeInfo / DipolarChargeInfo
+       arr   Array.combine_legs / split_legs / sort_legcharge / as_completely_blocked / make_pipe programs
+             (no Lean model: dense reshape/transposition oracle built from the documented contract)
 """
 import itertools
 import json
@@ -25,10 +35,10 @@ def main(inp, outp):
     results = []
     for case in cases:
         try:
-            if case['k'] == 'leg':
-                results.append(do_leg(case, ch, npc, npcio))
-            else:
-                results.append(do_pipe(case, ch, npc, npcio))
+            fn = {'leg': do_leg, 'pipe': do_pipe, 'conv': do_conv, 'arr': do_arr}[case['k']]
+            r = fn(case, ch, npc, npcio)
+            r['oracle'] = [list(o) + [None] * (3 - len(o)) for o in r['oracle']]
+            results.append(r)
         except Exception as e:  # infrastructure problem of this case: report, don't die
             import traceback
             results.append({'crash': traceback.format_exc()[-1500:]})
@@ -44,6 +54,80 @@ def sane(obj):
         return False
 
 
+def sane_leg(p):
+    from tenpy.linalg.charges import LegCharge
+    try:
+        LegCharge.test_sanity(p)
+        return True
+    except Exception:
+        return False
+
+
+def ints(a):
+    return [int(x) for x in a]
+
+
+def rows(a):
+    return [[int(x) for x in r] for r in a]
+
+
+class Build:
+    """Real objects from the data descriptions of one case (one shared ChargeInfo object per `mods`)."""
+
+    def __init__(self, case, ch):
+        self.ch = ch
+        self.dip = case.get('dip')
+        self.names = case.get('names')
+        self.cache = {}
+
+    def chinfo(self, mods, main=True):
+        key = (tuple(mods), main)
+        if key not in self.cache:
+            names = self.names if (main and self.names and len(self.names) == len(mods)) else None
+            if main and self.dip:
+                d = self.dip
+                self.cache[key] = self.ch.DipolarChargeInfo(list(mods), names, list(d['c']), list(d['d']), list(d['dims']))
+            else:
+                self.cache[key] = self.ch.ChargeInfo(list(mods), names)
+        return self.cache[key]
+
+    def leg(self, d, main=True):
+        ch = self.ch
+        if 'pipe' in d:
+            p = d['pipe']
+            return ch.LegPipe([self.leg(x, main) for x in p['legs']], qconj=p['qconj'], sort=p['sort'], bunch=p['bunch'])
+        ci = self.chinfo(d['mods'], main)
+        c = np.array(d['charges'], dtype=ch.QTYPE).reshape(len(d['charges']), len(d['mods']))
+        if d.get('ctor', 'init') == 'qind':
+            leg = ch.LegCharge.from_qind(ci, d['slices'], c, d['qconj'])
+        else:
+            leg = ch.LegCharge(ci, d['slices'], c, d['qconj'])
+        if 'sorted' in d:
+            leg.sorted, leg.bunched = bool(d['sorted']), bool(d['bunched'])
+        return leg
+
+
+def dip_cd(case):
+    d = case.get('dip')
+    return None if not d else [[int(c), int(x), int(m)] for c, x, m in zip(d['c'], d['d'], d['dims'])]
+
+
+def shift_ref(ci, case, q):
+    """independent numpy statement of the dipole shift on rows `q` (p_i -> p_i + dx[dim] * q_i, then modulo)"""
+    if ci.qnumber == 0:
+        return [[] for _ in q]
+    q = np.array(q, dtype=np.int64).reshape(-1, ci.qnumber).copy()
+    d = case.get('dip')
+    if d:
+        add = np.zeros_like(q)
+        for c, x, m in zip(d['c'], d['d'], d['dims']):
+            add[:, x] += case['dx'][m] * q[:, c]
+        q = q + add
+    return rows(ci.make_valid(q)) if ci.qnumber else rows(q)
+
+
+# ------------------------------------------------------------------------------------------------ kind 'leg'
+
 def do_leg(case, ch, npc, io):
     leg = io.make_leg(case['leg'])
     extra = io.make_leg(case['extra'])
@@ -53,15 +137,15 @@ def do_leg(case, ch, npc, io):
     before = io.dump_leg(leg)
     phys = io.phys_qflat(leg)
     out = {}
-    out['qflat'] = [[int(x) for x in r] for r in leg.to_qflat()]
+    out['qflat'] = rows(leg.to_qflat())
     out['is_sorted'] = bool(leg.is_sorted())
     out['is_bunched'] = bool(leg.is_bunched())
     out['is_blocked'] = bool(leg.is_blocked())
     out['sane'] = sane(leg)
     for key, bunch in [('sort1', True), ('sort0', False)]:
         perm, s = leg.sort(bunch=bunch)
-        d = dict(perm=[int(x) for x in perm], leg=io.dump_leg(s))
-        pflat = [int(x) for x in leg.perm_flat_from_perm_qind(perm)] if leg.block_number > 0 else []
+        d = dict(perm=ints(perm), leg=io.dump_leg(s))
+        pflat = ints(leg.perm_flat_from_perm_qind(perm))
         if bunch:
             d['pflat'] = pflat
         out[key] = d
@@ -75,11 +159,11 @@ def do_leg(case, ch, npc, io):
         if not s.is_sorted() or (bunch and not s.is_bunched()):
             orc.append(('leg.sort.not-sorted', f'bunch={bunch}'))
     idx, b = leg.bunch()
-    out['bunch'] = dict(idx=[int(x) for x in idx], leg=io.dump_leg(b))
+    out['bunch'] = dict(idx=ints(idx), leg=io.dump_leg(b))
     if io.phys_qflat(b) != phys or not sane(b) or not b.is_bunched():
         orc.append(('leg.bunch.charge-moved-or-insane', ''))
     mq, bms, pr = leg.project(mask)
-    out['project'] = dict(map=[int(x) for x in mq], masks=[[bool(x) for x in bm] for bm in bms], leg=io.dump_leg(pr))
+    out['project'] = dict(map=ints(mq), masks=[[bool(x) for x in bm] for bm in bms], leg=io.dump_leg(pr))
     if io.phys_qflat(pr) != [p for p, m in zip(phys, mask) if m] or not sane(pr):
         orc.append(('leg.project.charge-moved-or-insane', ''))
     ex = leg.extend(extra)
@@ -92,7 +176,7 @@ def do_leg(case, ch, npc, io):
     out['flip'] = io.dump_leg(fl)
     if io.phys_qflat(fl) != phys or not sane(fl):
         orc.append(('leg.flip.charge-changed-or-insane', ''))
-    neg = [[int(x) for x in leg.chinfo.make_valid(-np.array(p))] for p in phys] if leg.chinfo.qnumber else phys
+    neg = [ints(leg.chinfo.make_valid(-np.array(p))) for p in phys] if leg.chinfo.qnumber else phys
     if io.phys_qflat(cj) != neg:
         orc.append(('leg.conj.charge-not-negated', ''))
     try:
@@ -127,10 +211,18 @@ def do_leg(case, ch, npc, io):
     return {'in': inp, 'out': out, 'oracle': orc}
 
 
+# ------------------------------------------------------------------------------------------------ kind 'pipe'
+
 def do_pipe(case, ch, npc, io):
-    legs = [io.make_leg(l) for l in case['legs']]
+    B = Build(case, ch)
+    legs = [B.leg(l) for l in case['legs']]
     qconj, sort, bunch = case['qconj'], case['sort'], case['bunch']
     inp = dict(k='pipe', legs=[io.dump_leg(l) for l in legs], qconj=qconj, sort=sort, bunch=bunch, idx=case['idx'])
+    for key in ('psb', 'pmask', 'dx'):
+        if key in case:
+            inp[key] = case[key]
+    if 'dx' in case:
+        inp['cd'] = dip_cd(case)
     orc = []
     try:
         p = ch.LegPipe(legs, qconj=qconj, sort=sort, bunch=bunch)
@@ -144,7 +236,7 @@ def do_pipe(case, ch, npc, io):
         except (IndexError, ValueError):
             flat.append(None)
     out['flat'] = flat
-    out['qflat'] = [[int(x) for x in r] for r in p.to_qflat()]
+    out['qflat'] = rows(p.to_qflat())
     out['sane'] = sane(p)
     if not out['sane']:
         orc.append(('pipe.init.insane', ''))
@@ -160,16 +252,15 @@ def do_pipe(case, ch, npc, io):
     physp = io.phys_qflat(p)
     physl = [io.phys_qflat(l) for l in legs]
     ci = p.chinfo
+    seen = {}
     if n <= 4000:
-        seen = {}
         for idx in itertools.product(*[range(s) for s in shape]):
             f = int(p.map_incoming_flat(list(idx)))
             if f in seen or not (0 <= f < n):
                 orc.append(('pipe.map_incoming_flat.not-bijective', f'{idx} and {seen.get(f)} -> {f}'))
                 break
             seen[f] = idx
-            want = [int(x) for x in ci.make_valid(np.sum([physl[k][i] for k, i in enumerate(idx)], axis=0))] \
-                if ci.qnumber else []
+            want = ints(ci.make_valid(np.sum([physl[k][i] for k, i in enumerate(idx)], axis=0))) if ci.qnumber else []
             if physp[f] != want:
                 orc.append(('pipe.fusion-rule', f'idx {idx} -> {f}: pipe charge {physp[f]} expected {want}'))
                 break
@@ -186,28 +277,6 @@ def do_pipe(case, ch, npc, io):
                     check_placement(a, p, legs, seen, orc, sane)
                 except Exception as e:  # valid input: an exception means "not restored"
                     orc.append(('pipe.combine-split.raises.' + io.err_class(e), str(e)[:200]))
-                a = None
-            if a is not None:
-                dense = a.to_ndarray()
-                comb = a.combine_legs(list(range(len(legs))), pipes=p)
-                cd = comb.to_ndarray()
-                ok = True
-                for f, idx in seen.items():
-                    if not np.array_equal(cd[f], dense[idx]):
-                        orc.append(('pipe.combine.placement-differs-from-map', f'idx {idx} flat {f}'))
-                        ok = False
-                        break
-                back = comb.split_legs(0)
-                if not np.array_equal(back.to_ndarray(), dense):
-                    orc.append(('pipe.split-combine-not-identity', ''))
-                for l0, l1 in zip(a.legs, back.legs):
-                    try:
-                        l0.test_equal(l1)
-                    except ValueError:
-                        orc.append(('pipe.split-combine-legs-differ', ''))
-                        break
-                if not sane(comb) or not sane(back):
-                    orc.append(('pipe.combine-split.insane', ''))
     # conj: contractible with the original; outer_conj: same physical charges, still a valid pipe of the same legs
     try:
         p.test_contractible(cj)
@@ -215,13 +284,75 @@ def do_pipe(case, ch, npc, io):
         orc.append(('pipe.conj.not-contractible', ''))
     if not sane(cj) or not sane_leg(cj):
         orc.append(('pipe.conj.insane', ''))
+    if not conj_deep(p, cj, ch):
+        orc.append(('pipe.conj.incoming-legs-not-conjugated', 'conj() must conjugate the incoming legs at every nesting level'))
     if not sane_leg(oc):
         orc.append(('pipe.outer_conj.insane', f'qconj={p.qconj} sorted flag {oc.sorted}'))
     # outer_conj: the pipe over the SAME incoming legs with the outgoing direction reversed: the fusion rule
     # (charge*qconj of the pipe = sum over incoming) must keep holding, i.e. physical charges unchanged
     if io.phys_qflat(oc) != physp or oc.qconj != -p.qconj:
         orc.append(('pipe.outer_conj.breaks-fusion-rule', f'qconj {p.qconj} -> {oc.qconj}'))
+    # ---- conversions to LegCharge (to_LegCharge, and sort/bunch/project which convert first)
+    if 'psb' in case:
+        lc = p.to_LegCharge()
+        out['to_leg'] = io.dump_leg(lc)
+        if type(lc) is not ch.LegCharge or io.dump_leg(lc) != io.dump_leg(p) or not sane(lc):
+            orc.append(('pipe.to_LegCharge.differs', ''))
+        perm, s = p.sort(bunch=case['psb'])
+        out['psort'] = dict(perm=ints(perm), leg=io.dump_leg(s))
+        pflat = ints(p.perm_flat_from_perm_qind(perm))
+        if isinstance(s, ch.LegPipe) and ints(perm) != list(range(p.block_number)):
+            orc.append(('pipe.sort.still-a-pipe-after-permutation', ''))
+        if sorted(pflat) != list(range(p.ind_len)) or [physp[i] for i in pflat] != io.phys_qflat(s) or not sane_leg(s) \
+                or not s.is_sorted() or (case['psb'] and not s.is_bunched()):
+            orc.append(('pipe.sort.charge-moved-or-insane', f'bunch={case["psb"]}'))
+        idx_b, b = p.bunch()
+        out['pbunch'] = dict(idx=ints(idx_b), leg=io.dump_leg(b))
+        if io.phys_qflat(b) != physp or not sane_leg(b) or not b.is_bunched():
+            orc.append(('pipe.bunch.charge-moved-or-insane', ''))
+        mask = np.array(case['pmask'], dtype=bool)
+        mq, bms, pr = p.project(mask)
+        out['pproject'] = dict(map=ints(mq), masks=[[bool(x) for x in bm] for bm in bms], leg=io.dump_leg(pr))
+        if isinstance(pr, ch.LegPipe) or io.phys_qflat(pr) != [q for q, m in zip(physp, mask) if m] or not sane(pr):
+            orc.append(('pipe.project.charge-moved-or-insane', ''))
+    # ---- charge mapping (DipolarChargeInfo.shift_charges / trivial ChargeInfo.shift_charges)
+    if 'dx' in case:
+        try:
+            mp = p.apply_charge_mapping(ci.shift_charges, func_kwargs=dict(dx=case['dx']))
+        except NotImplementedError:
+            mp = None
+            if case['dx'][-1] == 0 or not case.get('dip'):
+                orc.append(('pipe.apply_charge_mapping.raises', str(case['dx'])))
+        out['map'] = None if mp is None else io.dump_pipe(mp)
+        if mp is not None:
+            if case.get('dip') and case['dx'][-1] != 0:
+                orc.append(('pipe.apply_charge_mapping.sublattice-shift-accepted', str(case['dx'])))
+            # the mapped pipe still obeys the fusion rule with its mapped legs on every index, and the map is the
+            # documented shift on the charge attached to every index
+            mphys = io.phys_qflat(mp)
+            ml = [io.phys_qflat(l) for l in mp.legs]
+            if mphys != shift_ref(ci, case, physp) or any(a != shift_ref(ci, case, b) for a, b in zip(ml, physl)):
+                orc.append(('pipe.apply_charge_mapping.charge-not-shifted', ''))
+            for f, idx in seen.items():
+                want = ints(ci.make_valid(np.sum([ml[k][i] for k, i in enumerate(idx)], axis=0))) if ci.qnumber else []
+                if mphys[f] != want or int(mp.map_incoming_flat(list(idx))) != f:
+                    orc.append(('pipe.apply_charge_mapping.breaks-fusion-rule', f'idx {idx}'))
+                    break
+            if not sane_leg(mp) or not sane(mp) or mp.sorted or mp.bunched:
+                orc.append(('pipe.apply_charge_mapping.insane', ''))
+            try:
+                mp.test_contractible(cj.apply_charge_mapping(ci.shift_charges, func_kwargs=dict(dx=case['dx'])))
+            except ValueError:
+                orc.append(('pipe.apply_charge_mapping.conj-not-contractible', ''))
     return {'in': inp, 'out': out, 'oracle': orc}
+
+
+def conj_deep(p, c, ch):
+    if c.qconj != -p.qconj or type(c) is not type(p) or rows(c.charges) != rows(p.charges) or ints(c.slices) != ints(p.slices):
+        return False
+    if isinstance(p, ch.LegPipe):
+        return len(c.legs) == len(p.legs) and all(conj_deep(a, b, ch) for a, b in zip(p.legs, c.legs))
+    return True
 
 
 def check_placement(a, p, legs, seen, orc, sane):
@@ -259,13 +390,630 @@ def npc_tensordot(a, b, n):
     return npc.tensordot(a, b, axes=[list(range(n)), list(range(n))])
 
 
-def sane_leg(p):
-    from tenpy.linalg.charges import LegCharge
+# ------------------------------------------------------------------------------------------------ kind 'conv'
+
+def attempt(f, *exc):
+    """(value, None) or (None, exception)"""
     try:
-        LegCharge.test_sanity(p)
-        return True
-    except Exception:
-        return False
+        return f(), None
+    except (exc or (Exception,)) as e:
+        return None, e
+
+
+def lexkey(c):
+    return tuple(reversed(c))
+
+
+def do_conv(case, ch, npc, io):
+    B = Build(case, ch)
+    leg = B.leg(case['leg'])
+    ci = leg.chinfo
+    LC = ch.LegCharge
+    qn = ci.qnumber
+    names = list(ci.names)
+    other = B.leg(case['other'])
+    other2 = B.leg(case['other2'], main=case['other2']['mods'] == case['leg']['mods'])
+    adds = [B.leg(d, main=False) for d in case['adds']]
+    before = io.dump_leg(leg)
+    qflat = rows(leg.to_qflat())
+    phys = io.phys_qflat(leg)
+    orc = []
+    out = {}
+    obs = {}
+    inp = dict(k='conv', leg=before, cd=dip_cd(case), dx=case['dx'], trivial=case['trivial'], qflat=case['qflat'],
+               adds=[io.dump_leg(l) for l in adds], drop=case['drop'], change=case['change'], goc=case['goc'],
+               ext_n=case['ext_n'], other=io.dump_leg(other), other2=io.dump_leg(other2), raw=case['raw'])
+
+    # --- from_trivial
+    t = case['trivial']
+    tl = LC.from_trivial(t['n'], ci if t['ci'] else None, t['qconj'])
+    out['trivial'] = io.dump_leg(tl)
+    if tl.ind_len != t['n'] or not sane(tl) or np.any(tl.to_qflat() != 0) or tl.to_qflat().shape != (t['n'], qn if t['ci'] else 0):
+        orc.append(('conv.from_trivial.wrong', ''))
+
+    # --- from_qflat (2D; 1D accepted for one charge; wrong width rejected)
+    qf = case['qflat']
+    arg = [r[0] for r in qf['rows']] if qf['flat1d'] else qf['rows']
+    if not qf['flat1d'] and len(arg) == 0:
+        arg = np.zeros((0, qn), dtype=int)
+    ql, e = attempt(lambda: LC.from_qflat(ci, arg, qf['qconj']))
+    out['qflat'] = None if ql is None else io.dump_leg(ql)
+    width_ok = all(len(r) == qn for r in qf['rows'])
+    if ql is None:
+        if width_ok:
+            orc.append(('conv.from_qflat.raises.' + io.err_class(e), str(e)[:100], 'qflat'))
+    elif not width_ok:
+        orc.append(('conv.from_qflat.wrong-width-accepted', '', 'qflat'))
+    elif rows(ql.to_qflat()) != qf['rows'] or not sane(ql) or ql.qconj != qf['qconj']:
+        orc.append(('conv.from_qflat.charges-differ-or-insane', '', 'qflat'))
+
+    # --- to_qdict / from_qdict
+    qd, e = attempt(leg.to_qdict)
+    uniq = len({tuple(r) for r in before['charges']}) == leg.block_number
+    out['to_qdict'] = None if qd is None else [[ints(k), int(v.start), int(v.stop)] for k, v in qd.items()]
+    if (qd is None) == uniq or (qd is None and not isinstance(e, ValueError)):
+        orc.append(('conv.to_qdict.blocked-iff-succeeds', f'unique charges {uniq}', 'to_qdict'))
+    if qd is not None and any(qflat[i] != list(k) for k, v in qd.items() for i in range(v.start, v.stop)):
+        orc.append(('conv.to_qdict.wrong-slice', '', 'to_qdict'))
+    inp['qd_entries'] = None
+    out['from_qdict'] = None
+    if qd is not None and leg.block_number > 0 and 0 not in leg.get_block_sizes():
+        ent = out['to_qdict']
+        ent = [ent[i] for i in case['qd_perm'] if i < len(ent)] + [x for i, x in enumerate(ent) if i not in case['qd_perm']]
+        if case['qd_gap'] and len(ent) >= 2:
+            j = max(range(len(ent)), key=lambda i: ent[i][1])
+            ent[j] = [ent[j][0], ent[j][1] + 1, ent[j][2] + 1]
+        inp['qd_entries'] = ent
+        fq, e = attempt(lambda: LC.from_qdict(ci, {tuple(k): slice(b, s) for k, b, s in ent}, leg.qconj))
+        out['from_qdict'] = None if fq is None else io.dump_leg(fq)
+        gap = case['qd_gap'] and len(ent) >= 2
+        if fq is None:
+            if not gap or not isinstance(e, ValueError):
+                orc.append(('conv.from_qdict.' + ('no-charges.' if qn == 0 else '') + 'raises.' + io.err_class(e), str(e)[:100],
+                            'from_qdict'))
+        elif gap:
+            orc.append(('conv.from_qdict.non-contiguous-accepted', '', 'from_qdict'))
+        else:
+            if rows(fq.to_qflat()) != qflat or ints(fq.slices) != before['slices'] or fq.qconj != leg.qconj:
+                orc.append(('conv.from_qdict.charges-differ', '', 'from_qdict'))
+            if not sane(fq):
+                orc.append(('conv.from_qdict.insane', f'sorted flag {fq.sorted} on charges {rows(fq.charges)}', 'from_qdict'))
+
+    # --- ChargeInfo.add / drop / change
+    drop, chg = case['drop'], case['change']
+    cia = ch.ChargeInfo.add([ci] + [l.chinfo for l in adds])
+    obs['ci_add'] = [ints(cia.mod), list(cia.names)]
+    if ints(cia.mod) != sum([ints(l.chinfo.mod) for l in [leg] + adds], []) or \
+            list(cia.names) != sum([list(l.chinfo.names) for l in [leg] + adds], []):
+        orc.append(('conv.ChargeInfo.add.wrong', ''))
+    drop_arg = None if drop is None else (names[drop] if case['by_name'] and drop < qn else drop)
+    cid, e = attempt(lambda: ch.ChargeInfo.drop(ci, drop_arg))
+    obs['ci_drop'] = None if cid is None else [ints(cid.mod), list(cid.names)]
+    if drop is None or drop < qn:
+        want = [[], []] if drop is None else [[m for i, m in enumerate(ints(ci.mod)) if i != drop],
+                                               [m for i, m in enumerate(names) if i != drop]]
+        if obs['ci_drop'] != want:
+            orc.append(('conv.ChargeInfo.drop.wrong', f'{obs["ci_drop"]} expected {want}'))
+    chg_arg = names[chg[0]] if case['by_name'] and chg[0] < qn else chg[0]
+    cic, e = attempt(lambda: ch.ChargeInfo.change(ci, chg_arg, chg[1], 'new'))
+    obs['ci_change'] = None if cic is None else [ints(cic.mod), list(cic.names)]
+    if chg[0] < qn:
+        want = [[chg[1] if i == chg[0] else m for i, m in enumerate(ints(ci.mod))],
+                ['new' if i == chg[0] else m for i, m in enumerate(names)]]
+        if obs['ci_change'] != want or ints(ci.mod) != before['mods']:
+            orc.append(('conv.ChargeInfo.change.wrong', f'{obs["ci_change"]} expected {want}'))
+
+    # --- from_add_charge
+    al, e = attempt(lambda: LC.from_add_charge([leg] + adds, cia if case['pass_ci'] else None))
+    out['add'] = None if al is None else io.dump_leg(al)
+    add_ok = all(l.ind_len == leg.ind_len and l.qconj == leg.qconj for l in adds)
+    if al is None:
+        if add_ok and all(l.block_number > 0 for l in [leg] + adds):
+            orc.append(('conv.from_add_charge.raises.' + io.err_class(e), str(e)[:100], 'add'))
+        elif not add_ok and not isinstance(e, ValueError):
+            orc.append(('conv.from_add_charge.wrong-exception.' + io.err_class(e), '', 'add'))
+    elif not add_ok:
+        orc.append(('conv.from_add_charge.incompatible-legs-accepted', '', 'add'))
+    else:
+        want = [sum(rs_, []) for rs_ in zip(qflat, *[rows(l.to_qflat()) for l in adds])] if leg.ind_len else []
+        if rows(al.to_qflat()) != want or not sane(al) or al.qconj != leg.qconj or al.ind_len != leg.ind_len:
+            orc.append(('conv.from_add_charge.charges-differ-or-insane', '', 'add'))
+
+    # --- from_drop_charge (by index or by name; with or without the target ChargeInfo)
+    dl, e = attempt(lambda: LC.from_drop_charge(leg, drop_arg, (cid if drop is not None else ch.ChargeInfo()) if case['pass_ci'] else None))
+    out['drop'] = None if dl is None else io.dump_leg(dl)
+    if drop is None or drop < qn:
+        if dl is None:
+            how = 'by-name' if isinstance(drop_arg, str) else 'by-index'
+            orc.append((f'conv.from_drop_charge.{how}.raises.' + io.err_class(e), str(e)[:100], 'drop'))
+        else:
+            want = [[x for i, x in enumerate(r) if drop is not None and i != drop] for r in qflat]
+            if rows(dl.to_qflat()) != want or not sane(dl) or dl.qconj != leg.qconj or \
+                    (drop is not None and ints(dl.slices) != before['slices']):
+                orc.append(('conv.from_drop_charge.charges-differ-or-insane', '', 'drop'))
+    elif dl is not None:
+        orc.append(('conv.from_drop_charge.bad-index-accepted', '', 'drop'))
+
+    # --- from_change_charge
+    cl, e = attempt(lambda: LC.from_change_charge(leg, chg_arg, chg[1], 'new', cic if case['pass_ci'] else None))
+    out['change'] = None if cl is None else io.dump_leg(cl)
+    if chg[0] < qn:
+        if cl is None:
+            orc.append(('conv.from_change_charge.raises.' + io.err_class(e), str(e)[:100], 'change'))
+        else:
+            want = rows(cic.make_valid(np.array(qflat, dtype=np.int64).reshape(-1, qn)))
+            if rows(cl.to_qflat()) != want or not sane(cl) or ints(cl.slices) != before['slices'] or cl.qconj != leg.qconj:
+                orc.append(('conv.from_change_charge.charges-differ-or-insane', '', 'change'))
+    elif cl is not None:
+        orc.append(('conv.from_change_charge.bad-index-accepted', '', 'change'))
+
+    # --- apply_charge_mapping with (Dipolar)ChargeInfo.shift_charges
+    dx = case['dx']
+    ml, e = attempt(lambda: leg.apply_charge_mapping(ci.shift_charges, func_kwargs=dict(dx=dx)), NotImplementedError)
+    out['map'] = None if ml is None else io.dump_leg(ml)
+    if ml is None:
+        if not case.get('dip') or dx[-1] == 0:
+            orc.append(('conv.apply_charge_mapping.raises', str(dx), 'map'))
+    else:
+        if case.get('dip') and dx[-1] != 0:
+            orc.append(('conv.apply_charge_mapping.sublattice-shift-accepted', str(dx), 'map'))
+        if io.phys_qflat(ml) != shift_ref(ci, case, phys) or ints(ml.slices) != before['slices'] or ml.sorted or ml.bunched \
+                or not sane(ml):
+            orc.append(('conv.apply_charge_mapping.charge-not-shifted', '', 'map'))
+        try:  # conjugate legs stay contractible, flipped legs stay equal
+            ml.test_contractible(leg.conj().apply_charge_mapping(ci.shift_charges, func_kwargs=dict(dx=dx)))
+            ml.test_equal(leg.flip_charges_qconj().apply_charge_mapping(ci.shift_charges, func_kwargs=dict(dx=dx)))
+        except ValueError:
+            orc.append(('conv.apply_charge_mapping.conj-not-contractible', '', 'map'))
+
+    # --- charge_sectors
+    cs, e = attempt(leg.charge_sectors)
+    out['sectors'] = None if cs is None else rows(cs)
+    want = [list(c) for c in sorted({tuple(r) for r in before['charges']}, key=lexkey)]
+    if cs is None:
+        orc.append(('conv.charge_sectors.raises.' + io.err_class(e), f'qnumber={qn} sorted flag {leg.sorted}: {str(e)[:80]}', 'sectors'))
+    elif out['sectors'] != want and sane(leg):
+        orc.append(('conv.charge_sectors.not-the-sorted-unique-charges', f'{out["sectors"]} expected {want}', 'sectors'))
+
+    # --- get_qindex_of_charges / get_charge / get_slice / get_block_sizes
+    goc = []
+    physb = rows(ci.make_valid(leg.charges * leg.qconj)) if qn else [[] for _ in range(leg.block_number)]
+    for c in case['goc']:
+        qi, e = attempt(lambda: leg.get_qindex_of_charges(c), ValueError)
+        goc.append(None if qi is None else int(qi))
+        hits = [i for i, r in enumerate(physb) if r == (ints(ci.make_valid(np.array(c))) if qn else [])]
+        if (qi is None and len(hits) == 1) or (qi is not None and hits != [int(qi)]):
+            orc.append(('conv.get_qindex_of_charges.wrong', f'{c} -> {qi}, blocks with that charge {hits}', 'goc'))
+    out['goc'] = goc
+    out['get_charge'] = [ints(leg.get_charge(i)) for i in range(leg.block_number)]
+    out['block_sizes'] = ints(leg.get_block_sizes())
+    out['get_slice'] = [[int(leg.get_slice(i).start), int(leg.get_slice(i).stop)] for i in range(leg.block_number)]
+    if out['get_charge'] != [[x * leg.qconj for x in r] for r in before['charges']] or sum(out['block_sizes']) != leg.ind_len \
+            or any(qflat[j] != before['charges'][i] for i, (b, s) in enumerate(out['get_slice']) for j in range(b, s)):
+        orc.append(('conv.get_charge-get_slice.wrong', ''))
+
+    # --- extend by an int
+    ex = leg.extend(case['ext_n'])
+    out['ext_int'] = io.dump_leg(ex)
+    if io.phys_qflat(ex) != phys + [[0] * qn] * case['ext_n'] or not sane(ex):
+        orc.append(('conv.extend-int.charge-moved-or-insane', ''))
+
+    # --- __eq__ / __ne__ / test_equal / test_contractible, all outcomes
+    def cmp(f):
+        try:
+            return bool(f())
+        except ValueError:
+            return None
+    same = ints(other.slices) == before['slices']
+    if qn:  # zero-size blocks carry a charge too: compare per block, not per index
+        same = same and rows(ci.make_valid(other.charges * other.qconj)) == physb
+    eq = dict(eq=cmp(lambda: leg == other), ne=cmp(lambda: leg != other), eq_copy=cmp(lambda: leg == leg.copy()),
+              eq_conj=cmp(lambda: leg == leg.conj()), eq2=cmp(lambda: leg == other2),
+              test_equal=cmp(lambda: leg.test_equal(other) is None),
+              test_contractible=cmp(lambda: leg.test_contractible(other.conj()) is None),
+              test_contractible_self=cmp(lambda: leg.test_contractible(leg) is None))
+    out['eq'] = eq
+    if eq['eq'] != same or eq['ne'] != (not same) or eq['eq_copy'] is not True or eq['test_equal'] != (True if same else None) \
+            or eq['test_contractible'] != eq['test_equal']:
+        orc.append(('conv.eq.wrong', f'{eq}; same charges on every index: {same}', 'eq'))
+    if (eq['eq2'] is None) != (before['mods'] != ints(other2.chinfo.mod)):
+        orc.append(('conv.eq.chinfo-mismatch-not-reported', str(eq), 'eq'))
+
+    # --- constructor sanity check on raw (possibly invalid) data
+    raw = case['raw']
+    rc = np.array(raw['charges'], dtype=ch.QTYPE)
+    if len(raw['charges']) == 0:
+        rc = rc.reshape(0, qn)
+    rl, e = attempt(lambda: LC(ci, raw['slices'], rc, raw['qconj']))
+    out['raw_ok'] = rl is not None
+    valid = (len(raw['slices']) == len(raw['charges']) + 1 and raw['slices'][0] == 0 and raw['qconj'] in (1, -1)
+             and all(len(r) == qn and all(m == 1 or 0 <= x < m for x, m in zip(r, before['mods'])) for r in raw['charges']))
+    if out['raw_ok'] != valid or (rl is None and not isinstance(e, ValueError)):
+        orc.append(('conv.ctor.sanity-check', f'accepted={out["raw_ok"]} valid={valid}', 'raw_ok'))
+
+    # --- perm_qind_from_perm_flat (no Lean model: contract only)
+    pq = []
+    sizes = out['block_sizes']
+    for pf in case['pflat']:
+        r, e = attempt(lambda: leg.perm_qind_from_perm_flat(np.array(pf, dtype=np.intp)))
+        pq.append(None if r is None else ints(r))
+        # is pf a block permutation?  walk it independently
+        pos, want, okp = 0, [], len(pf) == leg.ind_len
+        while okp and pos < len(pf):
+            cand = [i for i in range(leg.block_number) if sizes[i] > 0 and before['slices'][i] == pf[pos]]
+            if not cand or pf[pos:pos + sizes[cand[0]]] != list(range(pf[pos], pf[pos] + sizes[cand[0]])):
+                okp = False
+                break
+            want.append(cand[0])
+            pos += sizes[cand[0]]
+        okp = okp and len(set(want)) == len(want)
+        if okp:
+            if r is None:
+                orc.append(('conv.perm_qind_from_perm_flat.block-permutation-not-recovered',
+                            f'slices {before["slices"]} perm_flat {pf}: raises {io.err_class(e)}', 'pq'))
+            elif ints(leg.perm_flat_from_perm_qind(r)) != pf or (0 not in sizes and ints(r) != want):
+                orc.append(('conv.perm_qind_from_perm_flat.block-permutation-not-recovered',
+                            f'slices {before["slices"]} perm_flat {pf} -> {ints(r)}', 'pq'))
+        elif r is not None and ints(leg.perm_flat_from_perm_qind(r)) != pf:
+            orc.append(('conv.perm_qind_from_perm_flat.mixing-accepted', f'slices {before["slices"]} perm_flat {pf} -> {ints(r)}', 'pq'))
+    obs['pq'] = pq
+
+    # --- optimisation levels: 'skip_arg_checks' skips test_sanity / test_equal / test_contractible altogether,
+    #     'default' keeps the checks but does not re-derive the sorted/bunched flags
+    from tenpy.tools import optimization
+    forced = leg.copy()
+    forced.sorted = forced.bunched = True
+    with optimization.temporary_level(3):
+        skipped = [attempt(f)[1] is None for f in (leg.test_sanity, lambda: leg.test_equal(other), lambda: leg.test_contractible(other),
+                                                   forced.test_sanity, ch.LegPipe([leg, other]).test_sanity)]
+    with optimization.temporary_level(1):
+        lvl1 = [attempt(forced.test_sanity)[1] is None, attempt(lambda: leg.test_equal(other))[1] is None]
+    obs['opt'] = [skipped, lvl1]
+    if not all(skipped) or lvl1 != [sane(leg), eq['test_equal'] is True]:
+        orc.append(('conv.optimization-level.checks', f'skip_arg_checks: {skipped}; default: {lvl1}'))
+    if io.dump_leg(leg) != before:
+        orc.append(('conv.leg-mutated-by-operation', ''))
+    return {'in': inp, 'out': out, 'obs': obs, 'oracle': orc}
+
+
+# ------------------------------------------------------------------------------------------------ kind 'arr'
+
+class Node:
+    """One axis of the current tensor, as a function of the ORIGINAL index tuple."""
+
+    def __init__(self, kind, label, ax=None, pipe=None, ch=None, inv=None, size=None):
+        self.kind, self.label, self.ax, self.pipe, self.ch, self.inv = kind, label, ax, pipe, ch, inv
+        self.size = size if size is not None else (pipe.ind_len if pipe is not None else len(inv))
+        self.memo = {}
+
+    def pos(self, I):
+        if self.kind == 'leaf':
+            return I[self.ax]
+        if self.kind == 'perm':
+            return self.inv[self.ch[0].pos(I)]
+        key = tuple(c.pos(I) for c in self.ch)
+        if key not in self.memo:
+            self.memo[key] = int(self.pipe.map_incoming_flat(list(key)))
+        return self.memo[key]
+
+
+def expected_dense(dense, layout, shape):
+    E = np.zeros(shape, dtype=dense.dtype)
+    hit = np.zeros(shape, dtype=bool)
+    for I in np.ndindex(*dense.shape):
+        J = tuple(n.pos(I) for n in layout)
+        if hit[J]:
+            return None
+        hit[J] = True
+        E[J] = dense[I]
+    return E
+
+
+def resolve(layout, ref):
+    if isinstance(ref, str):
+        return [n.label for n in layout].index(ref)
+    return ref if ref >= 0 else ref + len(layout)
+
+
+def do_arr(case, ch, npc, io):
+    B = Build(case, ch)
+    legs = [B.leg(l) for l in case['legs']]
+    ci = legs[0].chinfo
+    rs = np.random.RandomState(case['seed'])
+    dt = {'f': float, 'c': complex, 'i': np.int64}[case['dtype']]
+
+    def func(size):
+        x = rs.randint(-3, 4, size)
+        if case['dtype'] == 'c':
+            return x + 1j * rs.randint(-3, 4, size)
+        return x.astype(dt)
+    qt = None
+    if ci.qnumber and case['qt'] is not None:
+        qt = ci.make_valid(np.sum([l.get_charge(l.get_qindex(i)[0]) for l, i in zip(legs, case['qt'])], axis=0))
+    a = npc.Array.from_func(func, legs, dtype=dt, qtotal=qt, labels=list(case['labels']))
+    a.isort_qdata()
+    keep = [i for i in range(a.stored_blocks) if case['keep'][i % len(case['keep'])]]
+    a._data = [a._data[i] for i in keep]
+    a._qdata = np.array(a._qdata[keep], dtype=np.intp).reshape(len(keep), a.rank)
+    dense = a.to_ndarray()
+    orc = []
+    obs = dict(stored_blocks=int(a.stored_blocks), steps=[])
+    if not sane(a):
+        return {'obs': obs, 'out': {}, 'oracle': [('arr.harness.initial-tensor-insane', '')]}
+    layout = [Node('leaf', lab, ax=i, size=legs[i].ind_len) for i, lab in enumerate(case['labels'])]
+    cur = a
+    for step, op in enumerate(case['prog']):
+        tag = f'step {step} {op["op"]}'
+        pre_dense = cur.to_ndarray()
+        pre_labels = list(cur.get_leg_labels())
+        try:
+            fn = {'combine': op_combine, 'split': op_split, 'sortleg': op_sortleg, 'blocked': op_blocked,
+                  'make_pipe': op_make_pipe, 'bad': op_bad}[op['op']]
+            new, layout2, info = fn(cur, layout, op, orc, ch, npc, io, tag)
+        except Exception as e:
+            import traceback
+            if isinstance(e, ValueError) and 'Duplicate label entry' in str(e) and op['op'] in ('combine', 'blocked', 'sortleg') \
+                    and any(n.label is None for n in layout) and any(n.label and '?' in n.label for n in layout):
+                # the '?#' placeholder of an unlabelled leg repeats the label of an earlier pipe of unlabelled legs
+                orc.append(('arr.combine_legs.anonymous-label-collision', f'{tag}: labels {[n.label for n in layout]}: {str(e)[:80]}'))
+                break
+            orc.append((f'arr.{op["op"]}.raises.' + io.err_class(e), f'{tag}: {str(e)[:150]} {traceback.format_exc()[-300:]}'))
+            break
+        obs['steps'].append(info)
+        if not np.array_equal(cur.to_ndarray(), pre_dense) or list(cur.get_leg_labels()) != pre_labels or not sane(cur):
+            orc.append((f'arr.{op["op"]}.operand-changed', tag))
+        if new is None:
+            continue
+        n_orc = len(orc)
+        if not sane(new):
+            orc.append((f'arr.{op["op"]}.insane', tag))
+        elif np.any(new.qtotal != cur.qtotal) or new.dtype != cur.dtype:
+            orc.append((f'arr.{op["op"]}.qtotal-or-dtype-changed', tag))
+        else:
+            got = new.to_ndarray()
+            shape = tuple(n.size for n in layout2)
+            if got.shape != shape:
+                orc.append((f'arr.{op["op"]}.shape', f'{tag}: {got.shape} expected {shape}'))
+            else:
+                E = expected_dense(dense, layout2, shape)
+                if E is None:
+                    orc.append((f'arr.{op["op"]}.index-map-not-injective', tag))
+                elif not np.array_equal(got, E):
+                    cut = op.get('cutoff', 0.)
+                    if not (cut > 0 and dropped_only(got, E, cut)):
+                        bad = np.argwhere(got != E)[0]
+                        orc.append((f'arr.{op["op"]}.data-misplaced', f'{tag}: at {tuple(int(x) for x in bad)} got {got[tuple(bad)]} expected {E[tuple(bad)]}'))
+            want_labels = [n.label for n in layout2]
+            if list(new.get_leg_labels()) != want_labels:
+                orc.append((f'arr.{op["op"]}.labels', f'{tag}: {new.get_leg_labels()} expected {want_labels}'))
+            for ax, n in enumerate(layout2):
+                want = legs[n.ax] if n.kind == 'leaf' else n.pipe if n.kind == 'pipe' else None
+                if want is not None:
+                    try:
+                        new.legs[ax].test_equal(want)
+                        if n.kind == 'pipe' and io.dump_pipe(new.legs[ax]) != io.dump_pipe(want):
+                            raise ValueError('pipe structure')
+                    except ValueError as e:
+                        orc.append((f'arr.{op["op"]}.leg-differs', f'{tag}: axis {ax} {str(e)[:60]}'))
+                        break
+        if len(orc) > n_orc:
+            break
+        cur, layout = new, layout2
+    obs['final'] = dict(labels=list(cur.get_leg_labels()), shape=ints(cur.shape), blocks=int(cur.stored_blocks),
+                        legs=[io.dump_pipe(l) if isinstance(l, ch.LegPipe) else io.dump_leg(l) for l in cur.legs])
+    return {'obs': obs, 'out': {}, 'oracle': orc}
+
+
+def dropped_only(got, E, cut):
+    """split_legs(cutoff): entries may only differ by having been dropped (set to 0) where |entry| <= cutoff"""
+    diff = got != E
+    return bool(np.all(got[diff] == 0) and np.all(np.abs(E[diff]) <= cut))
+
+
+def node_leg(n, legs):
+    return legs[n.ax] if n.kind == 'leaf' else n.pipe
+
+
+def op_combine(cur, layout, op, orc, ch, npc, io, tag):
+    groups = [[resolve(layout, r) for r in g] for g in op['groups']]
+    rank = len(layout)
+    npipes = len(groups)
+    first_q = [cur.legs[g[0]].qconj for g in groups]
+    qc = op['qconj']
+    qlist = [None] * npipes if qc is None else ([qc] * npipes if not isinstance(qc, list) else qc)
+    want_pipes, arg_pipes = [], []
+    for g, mode, q, fq in zip(groups, op['pipes'], qlist, first_q):
+        gl = [cur.legs[x] for x in g]
+        if mode is None:
+            want_pipes.append(ch.LegPipe(gl, qconj=fq if q is None else q))
+            arg_pipes.append(None)
+        else:
+            p = ch.LegPipe(gl, qconj=mode['qconj'], sort=mode['sort'], bunch=mode['bunch'])
+            want_pipes.append(p)
+            arg_pipes.append(p.conj() if mode['conj'] else p)
+    spect = [x for x in range(rank) if not any(x in g for g in groups)]
+    new_rank = len(spect) + npipes
+    if op['new_axes'] is None:
+        firsts = [g[0] for g in groups]
+        na = [sum(s < f for s in spect) + sum(f2 < f for f2 in firsts) for f in firsts]
+    else:
+        na = [x + new_rank if x < 0 else x for x in (op['new_axes'] if isinstance(op['new_axes'], list) else [op['new_axes']])]
+    # labels of the pipes: '?#' with # the axis in the tensor being combined
+    labs = [n.label if n.label is not None else '?' + str(i) for i, n in enumerate(layout)]
+    nodes = [layout[x] for x in spect]
+    for j in sorted(range(npipes), key=lambda j: na[j]):
+        g = groups[j]
+        nodes.insert(na[j], Node('pipe', '(' + '.'.join(labs[x] for x in g) + ')', pipe=want_pipes[j], ch=[layout[x] for x in g]))
+    # ---- the call, in the requested argument form
+    refs = op['groups']
+    kw = {}
+    if op['single']:
+        refs = refs[0]
+        if op['new_axes'] is not None:
+            kw['new_axes'] = op['new_axes']
+        if any(p is not None for p in arg_pipes):
+            kw['pipes'] = arg_pipes[0]
+        if qc is not None:
+            kw['qconj'] = qc
+    else:
+        if op['new_axes'] is not None:
+            kw['new_axes'] = tuple(op['new_axes']) if op.get('axes_tuple') else list(op['new_axes'])
+        if any(p is not None for p in arg_pipes):
+            kw['pipes'] = arg_pipes
+        if qc is not None:
+            kw['qconj'] = qc
+    given_axes = kw.get('new_axes')
+    snapshot = list(given_axes) if isinstance(given_axes, list) else None
+    try:
+        res = cur.combine_legs(refs, **kw)
+    except TypeError as e:
+        if isinstance(given_axes, tuple) and any(x < 0 for x in given_axes):
+            orc.append(('arr.combine_legs.new_axes.tuple-negative.TypeError', f'{tag}: new_axes={given_axes}: {str(e)[:80]}'))
+            return None, layout, dict(op='combine', error='TypeError')
+        raise
+    if snapshot is not None and list(given_axes) != snapshot:
+        orc.append(('arr.combine_legs.new_axes.list-mutated', f'{tag}: {snapshot} became {list(given_axes)}'))
+    return res, nodes, dict(op='combine', labels=list(res.get_leg_labels()))
+
+
+def op_split(cur, layout, op, orc, ch, npc, io, tag):
+    if op['axes'] is None:
+        axes = [i for i, n in enumerate(layout) if n.kind == 'pipe']
+        kw = {}
+    else:
+        lst = op['axes'] if isinstance(op['axes'], list) else [op['axes']]
+        axes = sorted(resolve(layout, r) for r in lst)
+        kw = dict(axes=op['axes'])
+    if op.get('cutoff'):
+        kw['cutoff'] = op['cutoff']
+    nodes = []
+    for i, n in enumerate(layout):
+        if i in axes:
+            nodes.extend(n.ch)
+        else:
+            nodes.append(n)
+    res = cur.split_legs(**kw)
+    if len(axes) == 0 and res is cur:
+        orc.append(('arr.split_legs.no-copy', tag))
+    return res, nodes, dict(op='split', labels=list(res.get_leg_labels()), blocks=int(res.stored_blocks))
+
+
+def op_sortleg(cur, layout, op, orc, ch, npc, io, tag):
+    rank = len(layout)
+    sort, bunch = op['sort'], op['bunch']
+    sl = sort if isinstance(sort, list) else [sort] * rank
+    bl = bunch if isinstance(bunch, list) else [bunch] * rank
+    try:
+        perms, res = cur.sort_legcharge(sort=[np.array(s) if isinstance(s, list) else s for s in sort] if isinstance(sort, list) else sort,
+                                        bunch=bunch)
+    except ValueError as e:
+        if isinstance(sort, list) and any(isinstance(s, list) for s in sort):
+            orc.append(('arr.sort_legcharge.sort-given-as-permutation.raises', f'{tag}: {str(e)[:80]}'))
+            return None, layout, dict(op='sortleg', error='ValueError')
+        raise
+    except IndexError as e:
+        if not any(isinstance(s, list) or s for s in sl) and not any(bl):
+            orc.append(('arr.sort_legcharge.nothing-to-do.raises.IndexError', f'{tag}: sort={sort} bunch={bunch}: {str(e)[:60]}'))
+            return None, layout, dict(op='sortleg', error='IndexError')
+        raise
+    # documented: cp.to_ndarray() == self.to_ndarray()[np.ix_(*perm)]
+    if len(perms) != rank or any(sorted(ints(p)) != list(range(cur.shape[i])) for i, p in enumerate(perms)):
+        orc.append(('arr.sort_legcharge.perm-not-permutation', tag))
+        return None, layout, dict(op='sortleg')
+    if not np.array_equal(res.to_ndarray(), cur.to_ndarray()[np.ix_(*perms)]):
+        orc.append(('arr.sort_legcharge.documented-permutation-wrong', tag))
+    nodes = []
+    for ax, n in enumerate(layout):
+        old, new = cur.legs[ax], res.legs[ax]
+        if isinstance(sl[ax], list):
+            raise NotImplementedError
+        if not (sl[ax] or bl[ax]):
+            if new is not old and io.dump_leg(new) != io.dump_leg(old):
+                orc.append(('arr.sort_legcharge.untouched-leg-changed', f'{tag} axis {ax}'))
+            nodes.append(n)
+            continue
+        if isinstance(new, ch.LegPipe) or (sl[ax] and not new.is_sorted()) or (bl[ax] and not new.is_bunched()) \
+                or (sl[ax] and bl[ax] and not new.is_blocked()):
+            orc.append(('arr.sort_legcharge.not-sorted-or-bunched', f'{tag} axis {ax}'))
+        if (not bl[ax] and sorted(ints(new.get_block_sizes())) != sorted(ints(old.get_block_sizes()))) or \
+                (not sl[ax] and ints(perms[ax]) != list(range(cur.shape[ax]))):
+            orc.append(('arr.sort_legcharge.sorted-or-bunched-although-not-requested', f'{tag} axis {ax}'))
+        po = io.phys_qflat(old)
+        if [po[i] for i in ints(perms[ax])] != io.phys_qflat(new):
+            orc.append(('arr.sort_legcharge.charge-moved', f'{tag} axis {ax}'))
+        inv = np.argsort(np.array(perms[ax]))
+        nodes.append(Node('perm', n.label, ch=[n], inv=[int(x) for x in inv]))
+    return res, nodes, dict(op='sortleg', perms=[ints(p) for p in perms])
+
+
+def op_blocked(cur, layout, op, orc, ch, npc, io, tag):
+    enc, res = cur.as_completely_blocked()
+    want = [i for i, l in enumerate(cur.legs) if len({tuple(r) for r in rows(l.charges)}) != l.block_number]
+    if ints(enc) != want:
+        orc.append(('arr.as_completely_blocked.wrong-axes', f'{tag}: {ints(enc)} expected {want}'))
+        return None, layout, dict(op='blocked')
+    if not want and res is not cur:
+        orc.append(('arr.as_completely_blocked.copy-although-blocked', tag))
+    if not all(l.is_blocked() for l in res.legs) or not res.is_completely_blocked():
+        orc.append(('arr.as_completely_blocked.not-blocked', tag))
+    nodes = []
+    for ax, n in enumerate(layout):
+        if ax in want:
+            lab = n.label if n.label is not None else '?' + str(ax)
+            nodes.append(Node('pipe', '(' + lab + ')', pipe=ch.LegPipe([cur.legs[ax]], qconj=cur.legs[ax].qconj), ch=[n]))
+        else:
+            nodes.append(n)
+    return res, nodes, dict(op='blocked', enc=ints(enc))
+
+
+def op_make_pipe(cur, layout, op, orc, ch, npc, io, tag):
+    axes = [resolve(layout, r) for r in op['axes']]
+    kw = {k: op[k] for k in ('qconj', 'sort', 'bunch') if op.get(k) is not None}
+    p = cur.make_pipe(op['axes'], **kw)
+    want = ch.LegPipe([cur.legs[x] for x in axes], **kw)
+    if io.dump_pipe(p) != io.dump_pipe(want) or any(x is not y for x, y in zip(p.legs, [cur.legs[x] for x in axes])):
+        orc.append(('arr.make_pipe.differs-from-LegPipe', tag))
+    return None, layout, dict(op='make_pipe', pipe=io.dump_pipe(p))
+
+
+def op_bad(cur, layout, op, orc, ch, npc, io, tag):
+    """documented argument errors: every one must be a ValueError (and leave the tensor alone)"""
+    rank = len(layout)
+    what = op['what']
+    pipes = [i for i, n in enumerate(layout) if n.kind == 'pipe']
+    plain = [i for i in range(rank) if not isinstance(cur.legs[i], ch.LegPipe)]
+    call = None
+    if what == 'pipes_len' and rank >= 2:
+        call = lambda: cur.combine_legs([[0], [1]], pipes=[None])
+    elif what == 'qconj_len' and rank >= 2:
+        call = lambda: cur.combine_legs([[0], [1]], qconj=[1, -1, 1])
+    elif what == 'pipe_nlegs' and rank >= 2:
+        call = lambda: cur.combine_legs([0, 1], pipes=cur.make_pipe([0]))
+    elif what == 'dup_leg' and rank >= 2:
+        call = lambda: cur.combine_legs([[0, 1], [1]])
+    elif what == 'new_axes_len' and rank >= 2:
+        call = lambda: cur.combine_legs([[0], [1]], new_axes=[0])
+    elif what == 'new_axes_big' and rank >= 2:
+        call = lambda: cur.combine_legs([0, 1], new_axes=[rank - 1])
+    elif what == 'split_nonpipe' and plain:
+        call = lambda: cur.split_legs([plain[0]])
+    elif what == 'split_twice' and pipes:
+        call = lambda: cur.split_legs([pipes[0], pipes[0] - rank])
+    elif what == 'pipe_other_legs' and rank >= 2 and cur.shape[0] > 0:
+        other = cur.legs[0].extend(1)
+        call = lambda: cur.combine_legs([0, 1], pipes=ch.LegPipe([other, cur.legs[1]]))
+    elif what == 'sort_len' and rank >= 1:
+        call = lambda: cur.sort_legcharge(sort=[True] * (rank + 1))
+    elif what == 'map_flat_len' and pipes:
+        call = lambda: cur.legs[pipes[0]].map_incoming_flat([0] * (cur.legs[pipes[0]].nlegs + 1))
+    if call is None:
+        return None, layout, dict(op='bad', what=what, skipped=True)
+    try:
+        call()
+        orc.append((f'arr.bad-argument.{what}.accepted', tag))
+    except ValueError:
+        pass
+    return None, layout, dict(op='bad', what=what)
 
 
 if __name__ == '__main__':
